@@ -45,10 +45,14 @@ func (s smtpSwarm) String() string {
 type c01Case struct {
 	Sw      smtpSwarm
 	Clients [][]smtpTxn
+	Fault   fsFault // file back-end: armed when transaction number Target (counted over all clients) sends its data
 }
 
 func (k *c01Case) Describe() []string {
 	l := []string{k.Sw.String()}
+	if k.Fault.On {
+		l = append(l, k.Fault.String())
+	}
 	for ci, txs := range k.Clients {
 		for i, t := range txs {
 			l = append(l, fmt.Sprintf("client%d txn%d %s", ci, i, t))
@@ -151,6 +155,23 @@ func genC01(w *simrt.Choices, tier string, avoid map[string]bool) Case {
 		}
 		k.Clients = append(k.Clients, txs)
 	}
+	if k.Sw.Store.Backend == "file" {
+		// armed in one of the transactions that get as far as sending data
+		var cand []int
+		nt := 0
+		for _, txs := range k.Clients {
+			for _, t := range txs {
+				if t.End == "data" || t.End == "noop-then-data" {
+					cand = append(cand, nt)
+				}
+				nt++
+			}
+		}
+		k.Fault = genFSFault(w, len(cand))
+		if k.Fault.On {
+			k.Fault.Target = cand[k.Fault.Target]
+		}
+	}
 	return k
 }
 
@@ -166,6 +187,7 @@ type c01Run struct {
 	from   map[string]string    // token -> header From address
 	to     map[string][]string  // token -> header To addresses
 	pol    *models.Policy
+	txnBase []int // number of the first transaction of each client, counted over all clients
 }
 
 func (r *c01Run) addExpect(mailbox, token string, n int, dup bool) {
@@ -201,7 +223,7 @@ func (r *c01Run) runClient(ci int, txs []smtpTxn) {
 	// keeps its recipients) until DATA completes, RSET or EHLO
 	open := false
 	var accepted []string
-	for _, t := range txs {
+	for ti, t := range txs {
 		if t.Greet != "" {
 			if g := cl.cmd(t.Greet + " client.sim"); g.ok2xx() {
 				open, accepted = false, nil
@@ -261,8 +283,21 @@ func (r *c01Run) runClient(ci int, txs []smtpTxn) {
 				if len(accepted) == 0 {
 					c.Failf("data-without-recipient", "%s: DATA answered 354 with no accepted recipient", name)
 				}
-				if fin := cl.sendData(data); fin.Code == 250 {
-					complete(true)
+				fired := fsFired(c.Sim)
+				disarm := func() int { return 0 }
+				if r.k.Fault.On && r.k.Fault.Target == r.txnBase[ci]+ti {
+					disarm = r.k.Fault.arm(c.Sim)
+				}
+				fin := cl.sendData(data)
+				disarm()
+				switch {
+				case fin.Code == 250:
+					complete(true) // acknowledged is acknowledged, whatever the disk did
+				case fsFired(c.Sim) > fired:
+					// the disk failed while this transaction was being stored and the
+					// server said so: each of ITS recipients may or may not have a copy
+					complete(false)
+					c.Stat("probe.transaction_refused_after_disk_fault", 1)
 				}
 				open, accepted = false, nil
 			}
@@ -312,6 +347,11 @@ func runC01(c *Ctx, cs Case) {
 	root := k.Sw.root()
 	env := startSMTP(c, root, st, eh)
 	r := &c01Run{c: c, k: k, expect: map[string]*expCount{}, data: map[string][]byte{}, pol: toModelPolicy(root)}
+	nt := 0
+	for _, txs := range k.Clients {
+		r.txnBase = append(r.txnBase, nt)
+		nt += len(txs)
+	}
 	for ci, txs := range k.Clients {
 		ci, txs := ci, txs
 		c.Go(fmt.Sprintf("client%d", ci), func() { r.runClient(ci, txs) })
